@@ -31,7 +31,8 @@ from typedpy import (AllOf, AnyOf, Array, Deque, Deserializer, ImmutableSet, Int
                      Serializer, Set, String, Structure, Tuple)
 
 from typedpy.structures import Field
-from typedpy import DateField, DateTime, Enum, mappers
+from typedpy import DateField, DateTime, Enum, ImmutableStructure, mappers
+from typedpy import serialize as tp_serialize
 
 from extract import shared_writes as SW
 
@@ -49,7 +50,7 @@ STMT_END = {}       # (abs path, first line of a multi-line statement in a site 
 def _build_tables():
     seen = set()
     for r in ROWS:
-        if r["valueKind"] in ("keyedCache", "publishedIncomplete") and r.get("first_line"):
+        if r["valueKind"] in ("keyedCache", "publishedIncomplete", "transientEntries", "checkThenGet") and r.get("first_line"):
             # functions that fill a module-level cache: every line is a yield point in the "sitelines" scope
             SITEFUNCS.add((os.path.abspath(os.path.join(SW.repo_dir(), r["path"])), r["first_line"]))
         if not r.get("events") or r["valueKind"] not in ("perCall", "ownerName"):
@@ -322,6 +323,33 @@ def _build_shape(name):
             n = Integer
             _required = []
         return Shape(name, Sr, racy=name == "ser_array_date")
+    if name == "shared_ref":
+        # reference data: many owners refer to one nested instance
+        class Currency(ImmutableStructure):
+            code = String
+            digits = Integer
+
+        class Price(Structure):
+            amount = Integer
+            currency = Currency
+            fallback = Currency
+            _required = []
+        return Shape(name, Price)
+    if name == "shared_default":
+        # a non-callable Structure default: every owner built without the field refers to the default instance
+        ns = {}
+        exec("from typedpy import Structure\n"
+             "class Address(Structure):\n    city: str\n    zip_code: str\n"
+             "class Customer(Structure):\n    name: str\n    visits: int = 0\n"
+             "    address: Address = Address(city='Paris', zip_code='75001')\n", ns)  # pylint: disable=exec-used
+        return Shape(name, ns["Customer"])
+    if name == "mapper_hist":
+        class Order(Structure):
+            order_id = Integer
+            total = Integer
+            note = String
+            _required = []
+        return Shape(name, Order)
     if name in COLD_SHAPES:
         # classes with a non-trivial mapper; rebuilt for EVERY schedule, so every run starts with cold per-class caches
         class Address(Structure):
@@ -548,6 +576,12 @@ def gen_cold_value(rng, sname, field):
 
 def gen_value(rng, sname, field, bad=0.2):
     """a JSON value description for `field` of shape `sname`"""
+    if sname == "shared_ref":
+        return {"d": {"code": "C" + str(_BASE[0]), "digits": _int(rng, 0.0)}} if field in ("currency", "fallback") else _int(rng, 0.0)
+    if sname == "shared_default":
+        return {"name": "n" + str(_BASE[0]), "visits": _int(rng, 0.0)}[field]
+    if sname == "mapper_hist":
+        return "nt" + str(_BASE[0]) if field == "note" else _int(rng, 0.0)
     if sname in SER_SHAPES:
         return gen_ser_value(rng, sname, field, bad)
     if sname in COLD_SHAPES:
@@ -657,6 +691,7 @@ def build_ops(case, sh=None):
     """per thread: a zero-argument callable (run under the scheduler); instances for setattr/serialize are pre-built"""
     sh = sh or shape(case["shape"])
     ops = []
+    shared = {}
     for th in case["threads"]:
         op = th["op"]
         cls = sh.classes[th.get("cls", 0)]
@@ -675,11 +710,18 @@ def build_ops(case, sh=None):
                 return getattr(inst, f)
             ops.append(do)
         elif op == "serialize":
+            kw = mk_kw(cls, th["kw"])
+            for f in case.get("share", []):      # every thread's instance refers to ONE nested instance
+                if f in kw:
+                    kw[f] = shared.setdefault(f, kw[f])
             try:
-                inst = cls(**mk_kw(cls, th["kw"]))
+                inst = cls(**kw)
             except Exception:
                 inst = cls()
-            ops.append(lambda inst=inst: {"ser": Serializer(inst).serialize()})
+            if th.get("fn"):        # the generic serialize() function, optionally with an ad-hoc mapper
+                ops.append(lambda inst=inst, m=th.get("mapper"): {"ser": tp_serialize(inst, mapper=m) if m else tp_serialize(inst)})
+            else:
+                ops.append(lambda inst=inst: {"ser": Serializer(inst).serialize()})
         else:
             raise ValueError(op)
     return ops
@@ -889,10 +931,97 @@ class Run:
         return sorted(out)
 
 
+def tracked_containers():
+    """the module-level containers of the translator table (caches, registries): (path, name) -> live object"""
+    out = {}
+    by_file = {os.path.abspath(getattr(m, "__file__", None) or ""): m for m in list(sys.modules.values()) if m is not None}
+    for r in ROWS:
+        if r["target"] != "<module>":
+            continue
+        mod = by_file.get(os.path.abspath(os.path.join(SW.repo_dir(), r["path"])))
+        obj = getattr(mod, r["attr"], None)
+        if isinstance(obj, (dict, set, list)):
+            out[(r["path"], r["attr"])] = obj
+    return out
+
+
+def _restore(conts, snap):
+    for k, c in conts.items():
+        if isinstance(c, list):
+            c[:] = snap[k]
+        else:
+            c.clear()
+            c.update(snap[k])
+
+
+_HISTORY = {}
+
+
+def warm_history(case):
+    """a warm-up HISTORY before the scheduled operations: the plain serialization of every thread's instance, then
+    serializations with many distinct ad-hoc mappers, which fill the process-wide caches.  If a tracked container ever
+    shrinks while it is being filled (a bounded / evicting cache), the history is rebuilt so that the container sits at
+    its peak size - the next new entry evicts.  The resulting container contents are snapshotted and restored before
+    every schedule and every sequential order."""
+    key = json.dumps(case, sort_keys=True)
+    if key in _HISTORY:
+        return _HISTORY[key]
+    sh = shape(case["shape"])
+    conts = tracked_containers()
+    limit = case["warmup"]["adhoc"]
+    warm = sh.cls()
+    fname = fields_of(case["shape"])[-1]
+
+    def plain():
+        reset_caches(sh)
+        for c in conts.values():
+            c.clear() if not isinstance(c, list) else c.__delitem__(slice(None))
+        for op in build_ops(case, sh):
+            pass
+        for th in case["threads"]:
+            if th["op"] == "serialize" and not th.get("mapper"):
+                try:
+                    tp_serialize(sh.classes[th.get("cls", 0)](**mk_kw(sh.classes[th.get("cls", 0)], th["kw"])))
+                except Exception:
+                    pass
+
+    def step(i):
+        try:
+            tp_serialize(warm, mapper={fname: f"w{i}"})
+        except Exception:
+            pass
+    plain()
+    sizes = {k: len(c) for k, c in conts.items()}
+    peak = dict(sizes)
+    shrunk = None
+    for i in range(limit):
+        step(i)
+        for k, c in conts.items():
+            if len(c) < sizes[k]:
+                shrunk = k
+            sizes[k] = len(c)
+            peak[k] = max(peak[k], len(c))
+        if shrunk:
+            break
+    if shrunk:
+        plain()
+        i = 0
+        while len(conts[shrunk]) < peak[shrunk] and i < limit:
+            step(i)
+            i += 1
+    snap = {k: (list(c) if isinstance(c, list) else type(c)(c)) for k, c in conts.items()}
+    _HISTORY[key] = (conts, snap, {"evicting": list(shrunk) if shrunk else None,
+                                   "sizes": {k[1]: len(v) for k, v in snap.items()}})
+    return _HISTORY[key]
+
+
 def run_schedule(case, sched, scope):
     for attempt in (0, 1):
         sh = run_shape(case["shape"])
         reset_caches(sh)
+        if case.get("warmup"):
+            conts, snap, _ = warm_history(case)
+            _restore(conts, snap)
         ops = build_ops(case, sh)
         try:
             return Run(ops, sched, scope, sh.cell_ids).run()
@@ -911,6 +1040,9 @@ def sequential(case):
     for perm in itertools.permutations(range(n)):
         sh = run_shape(case["shape"])
         reset_caches(sh)
+        if case.get("warmup"):
+            conts, snap, _ = warm_history(case)
+            _restore(conts, snap)
         ops = build_ops(case, sh)
         for pos, i in enumerate(perm):
             r = outcome_of(ops[i])
@@ -1120,7 +1252,10 @@ def oracle(case, impl):
     for o in impl.get("outcomes", []):
         for i, th in enumerate(case["threads"]):
             r = o["res"][i]
-            if "ok" in r and not ints_in(r["ok"]) <= ints_in(th):
+            own = ints_in(th)
+            for f in case.get("share", []):     # a deliberately shared nested instance belongs to every owner
+                own |= ints_in(case["threads"][0]["kw"].get(f))
+            if "ok" in r and not ints_in(r["ok"]) <= own:
                 key = f"foreign-value:{case['shape']}"
                 if key not in seen:
                     seen.add(key)
@@ -1272,8 +1407,8 @@ def gen_cases(rng, tier, scale=1.0):
                       "threads": [{"op": "setattr", "field": fl[0], "value": v0},
                                   {"op": "setattr", "field": fl[1], "value": v1}]})
     for sname in A_SHAPES:
-        for _ in range(reps_a):
-            add("A", sname, 2, max_pre=max_pre, cap=120 if quick else 800)
+        for _ in range(reps_a if (not quick or shape(sname).racy) else 1):
+            add("A", sname, 2, max_pre=max_pre, cap=120 if quick else 650)
         if sname in ("array_int", "shared_set", "map_int") or not quick:
             add("A", sname, 3, max_pre=2, cap=120 if quick else 600)
     for sname, v0, v1 in CANONICAL_E:
@@ -1282,10 +1417,10 @@ def gen_cases(rng, tier, scale=1.0):
                       "threads": [{"op": "setattr", "field": fl[0], "value": v0},
                                   {"op": "setattr", "field": fl[1], "value": v1}]})
     reps_e = max(1, int((1 if quick else 3) * scale))
-    for sname in E_SHAPES:
+    for sname in (rng.sample(E_SHAPES, 16) if quick else E_SHAPES):
         for _ in range(reps_e):
             flat = sname in ("anyof", "oneof", "allof", "notfield") or sname.startswith("shared_")
-            add("E", sname, 2, max_pre=max_pre, cap=100 if quick else 400, **({"yield": "sitelines"} if flat else {}))
+            add("E", sname, 2, max_pre=max_pre, cap=100 if quick else 320, **({"yield": "sitelines"} if flat else {}))
     # twin declarations: every thread on a DIFFERENT declaration (other field / other class) of the same spelling
     def add_twin(stream, sname, n, directed=None, **kw):
         decls = roster(sname)
@@ -1322,7 +1457,7 @@ def gen_cases(rng, tier, scale=1.0):
         for _ in range(max(1, int((1 if quick else 2) * scale))):
             add_twin("A", sname, 2, max_pre=max_pre, cap=100 if quick else 400)
     for sname in (rng.sample(TWIN_SHAPES, 4) if quick else TWIN_SHAPES):
-        add_twin("B", sname, 2, max_pre=max_pre, nsched=20 if quick else 40)
+        add_twin("B", sname, 2, max_pre=max_pre, nsched=20 if quick else 30)
     # SerializableField items in collections: a constructing / assigning thread against a deserializing one (the
     # deserializer's pre-pass works on the same shared item Field objects), all on the same field
     def add_ops(stream, sname, ops, **kw):
@@ -1356,7 +1491,7 @@ def gen_cases(rng, tier, scale=1.0):
             add_ops("E", sname, ["deserialize", "deserialize", "construct"], max_pre=2, cap=200)
     for sname in (rng.sample(SER_SHAPES, 3) if quick else SER_SHAPES):
         add_ops("B", sname, [rng.choice(["construct", "deserialize", "serialize", "setattr"]) for _ in range(2)],
-                max_pre=max_pre, nsched=20 if quick else 50)
+                max_pre=max_pre, nsched=20 if quick else 40)
     # classes with mappers from a COLD start (fresh classes for every schedule): first (de)serializations race
     cold_e = rng.sample(COLD_SHAPES, 2) if quick else COLD_SHAPES
     for sname in COLD_SHAPES:
@@ -1364,12 +1499,42 @@ def gen_cases(rng, tier, scale=1.0):
             [["deserialize", "deserialize"], ["serialize", "deserialize"], ["serialize", "serialize"],
              ["construct", "deserialize"], ["deserialize", "serialize", "deserialize"]]
         for ops in mixes:
-            add_ops("B", sname, ops, max_pre=max_pre, nsched=20 if quick else 50)
+            add_ops("B", sname, ops, max_pre=max_pre, nsched=20 if quick else 35)
         if sname in cold_e:
             # exhaustively at every line of the functions that fill a module-level cache (translator rows); the
             # serialization and the deserialization side have separate caches: same-direction pairs
             add_ops("E", sname, ["deserialize", "deserialize"], max_pre=1 if quick else 2, cap=400 if quick else 200, **{"yield": "sitelines"})
             add_ops("E", sname, ["serialize", "serialize"], max_pre=1 if quick else 2, cap=400 if quick else 200, **{"yield": "sitelines"})
+    # two top-level instances that SHARE a nested Structure instance, serialized through the generic serialize() path
+    def add_shared(stream, sname, share, n=2, **kw):
+        ths = []
+        for i in range(n):
+            _BASE[0] = i
+            fs = [g for g in fields_of(sname) if g != "address"]
+            ths.append({"op": "serialize", "fn": True, "kw": {g: gen_value(rng, sname, g, bad=0.0) for g in fs}})
+        c = {"stream": stream, "shape": sname, "threads": ths, "share": share, "sseed": rng.randrange(1 << 30)}
+        c.update(kw)
+        cases.append(c)
+
+    for sname, share in (("shared_ref", ["currency"]), ("shared_ref", ["currency", "fallback"]), ("shared_default", [])):
+        add_shared("B", sname, share, max_pre=max_pre, nsched=20 if quick else 50)
+        if not quick:
+            add_shared("B", sname, share, n=3, max_pre=max_pre, nsched=40)
+        add_shared("E", sname, share, max_pre=1 if quick else 2, cap=200, **{"yield": "sitelines"})
+    # a warm-up history that fills the process-wide caches (many ad-hoc mappers), then a cached serialization against one
+    # with a not-yet-cached ad-hoc mapper; exhaustive at every line of the cache functions + line-level sampling
+    for stream in ("E", "B"):
+        ths = []
+        for i in range(2):
+            _BASE[0] = i
+            th = {"op": "serialize", "fn": True, "kw": {g: gen_value(rng, "mapper_hist", g, bad=0.0) for g in fields_of("mapper_hist")}}
+            if i == 1:
+                th["mapper"] = {"total": "adhoc" + str(rng.randrange(1000))}
+            ths.append(th)
+        c = {"stream": stream, "shape": "mapper_hist", "threads": ths, "warmup": {"adhoc": 300 if quick else 1100},
+             "sseed": rng.randrange(1 << 30), "max_pre": 1 if (quick or stream == "E") else max_pre}
+        c.update({"cap": 300, "yield": "sitelines"} if stream == "E" else {"nsched": 20 if quick else 80})
+        cases.append(c)
     # fixed operation mixes (values still random): cold-cache serialization races, scalar assignment, wrappers
     for sname, ops in CANONICAL_B:
         ths = []
@@ -1381,9 +1546,9 @@ def gen_cases(rng, tier, scale=1.0):
             else:
                 ths.append({"op": op, "kw": {g: gen_value(rng, sname, g, bad=0.0 if op == "serialize" else 0.1) for g in fs}})
         cases.append({"stream": "B", "shape": sname, "threads": ths, "sseed": rng.randrange(1 << 30),
-                      "max_pre": max_pre, "nsched": 40 if quick else 150})
+                      "max_pre": max_pre, "nsched": 40 if quick else 100})
     reps_b = max(1, int((1 if quick else 4) * scale))
-    for sname in (rng.sample(ALL_SHAPES, 26) if quick else ALL_SHAPES):
+    for sname in (rng.sample(ALL_SHAPES, 18) if quick else ALL_SHAPES):
         for _ in range(reps_b):
-            add("B", sname, 3 if rng.random() < 0.2 else 2, max_pre=max_pre, nsched=20 if quick else 50)
+            add("B", sname, 3 if rng.random() < 0.2 else 2, max_pre=max_pre, nsched=20 if quick else 35)
     return cases
